@@ -34,6 +34,13 @@ from .chain import clone as _clone   # noqa: E402
 CONTRACTS += [_clone(_c, home="c08") for _c in _C08H.make_helper]
 
 
+# the kernel's two batch loops: the value stored for a row is a function of that row and the helper's immutable fields only - every scratch cell an
+# iteration reads (Keplerian column, jitter-inflated weights, K variance) is (re)written by that same iteration, whatever the previous row left
+# (per-iteration contracts of contracts/kernel.py, proved from an ARBITRARY scratch state)
+from . import kernel as _KN   # noqa: E402
+CONTRACTS += [_clone(_c, callees=_KN.CALLEES, lib=_KN.LIB, hooks=_KN.HOOKS, home="c01") for _c in (_KN.bml, _KN.bgp)]
+
+
 def EXTRA():
     from jvc import effects
     # call-history independence of the Python plumbing: no module-level cache or other state is written by these modules
